@@ -575,10 +575,17 @@ pub struct HumanSpan {
 
 impl HumanSpan {
     fn from_range(before: Span, after: Span) -> Self {
+        let column_start = before.get_column();
+        let column_end = if after.location_line() == before.location_line() {
+            after.get_column()
+        } else {
+            // The construct continues on a following line: point at its part on the first line.
+            column_start + before.fragment().lines().next().map_or(0, str::len)
+        };
         Self {
             line: before.location_line() as usize,
-            column_start: before.get_column(),
-            column_end: after.get_column(),
+            column_start,
+            column_end,
         }
     }
 
